@@ -50,7 +50,7 @@ impl HostCluster {
 
     #[inline(always)]
     pub(crate) fn rb_slice_host_end(&self, info: &Qcow2Info) -> u64 {
-        self.rb_slice_host_start(info) + (info.rb_slice_entries() << info.cluster_bits()) as u64
+        self.rb_slice_host_start(info) + ((info.rb_slice_entries() as u64) << info.cluster_bits())
     }
 
     #[inline(always)]
